@@ -3,7 +3,11 @@ EXTENDS Metrics, Json
 MCProtos == {"HTTP1", "HTTP2"}
 TcpOnly == {"tcp"}
 IcmpOnly == {"icmp"}
+TcpHalf == {"tcp", "half"}
+H2Only == {"HTTP2"}
 \* one line per maximal-length history (and per history that returned to the idle state)
 Idle == \A s \in Sess : sproto[s] = "none"
 EmitHistory == (Len(hist) = MaxLen \/ (Idle /\ Len(hist) >= 3)) => PrintT(<< "HIST", ToJson(hist) >>)
+\* (half-close histories: only those that contain one are worth a run)
+EmitHalf == ((Len(hist) = MaxLen \/ (Idle /\ Len(hist) >= 3)) /\ \E i \in 1..Len(hist) : hist[i].o.op = "PeerHalfClose") => PrintT(<< "HIST", ToJson(hist) >>)
 =============================================================================
